@@ -60,7 +60,7 @@ theorem C17_stop_empties_stack (s : St) (m : ModId) (md : Mod) (hm : s.mods[m]? 
     intro g hg st
     have := congrArg List.length (hg.sigs st)
     simpa [St.sigs] using this
-  have q1 : Quiet (fun st : St => if md.pipe.isSome then st.emit (.close "pipe-w") else st) := Quiet.ite _ (quiet_emit _) Quiet.id
+  have q1 : Quiet (fun st : St => if md.pipe.isSome then st.emit (.close .pipeW) else st) := Quiet.ite _ (quiet_emit _) Quiet.id
   have q2 := Quiet.foldl (fun st i => removeSrc st m i) (fun i => quiet_removeSrc m i) md.subs
   have q3 := quiet_destroyEvts md.stash []
   have q4 := quiet_destroyEvts md.batch []
